@@ -341,13 +341,16 @@ uint32_t DNS::compose_name(const uint8_t* ptr, char* out_ptr) const {
     const uint8_t* end = &records_data_[0] + records_data_.size();
     const uint8_t* end_ptr = 0;
     char* current_out_ptr = out_ptr;
-    uint8_t pointer_counter = 0;
+    size_t pointer_counter = 0;
     while (*ptr) {
-        if (pointer_counter++ > 30){
-            throw dns_decompression_pointer_loops();
-        }
         // It's an offset
         if (((*ptr & 0xc0) == 0xc0)) {
+            // Only offsets can form a loop: labels are bounded by the size check below.
+            // A name that follows more offsets than there are bytes in the records
+            // has necessarily visited one of them twice.
+            if (pointer_counter++ > records_data_.size()) {
+                throw dns_decompression_pointer_loops();
+            }
             if (TINS_UNLIKELY(ptr + sizeof(uint16_t) > end)) {
                 throw malformed_packet();
             }
